@@ -208,6 +208,14 @@ def case_multi(W, cfg):
             compare(W, "multi:ufunc-2-core-dims:parallelized", lambda x: ufunc2(x, dask=("parallelized" if hasattr(x.data, "dask") else "forbidden")), (da,), (lz2,))
         compare(W, "multi:ufunc-2-core-dims:map_overlap", lambda x: ufunc2(x, dask=("allowed" if hasattr(x.data, "dask") else "forbidden"), map_overlap=hasattr(x.data, "dask")), (da,), (lz2,))
 
+        def ufunc2rev(x, **kw):
+            # widths differ per axis and the mapping lists the axes in another order than the signature
+            def f(y):
+                return y[..., 1:, 2:] - y[..., :-1, :-2]
+            return grid.apply_as_grid_ufunc(f, x, axis=[("X", "Z")], signature="(X:center,Z:center)->(X:center,Z:center)",
+                                            boundary_width={"Z": (1, 1), "X": (1, 0)}, boundary={"X": "periodic", "Z": "extend"}, **kw)
+        compare(W, "multi:ufunc-2-core-dims:width-order:map_overlap", lambda x: ufunc2rev(x, dask=("allowed" if hasattr(x.data, "dask") else "forbidden"), map_overlap=hasattr(x.data, "dask")), (da,), (lz2,))
+
 
 def case_metric(W, cfg):
     import xgcm
